@@ -276,7 +276,8 @@ func (p Parameters) GaloisElementsForInnerSum(batch, n int) (galEls []uint64) {
 // Replicate operation with parameters batch and n.
 func (p Parameters) GaloisElementsForReplicate(batch, n int) (galEls []uint64) {
 	galEls = rlwe.GaloisElementsForReplicate(p, batch, n)
-	if n > p.N()>>1 {
+	// The replication spans both rows: the second row is obtained with the row swap
+	if n*batch > p.MaxSlots()>>1 {
 		galEls = append(galEls, p.GaloisElementForRowRotation())
 	}
 	return
